@@ -7,7 +7,7 @@
    validator rejects; a subscriber raising on the RunStop), abort()/halt() requests, and the engine's
    cleanup with any exit status.  [runs_of h] is the specification side: which runs exist and how
    each one ended, told without spans; [run_log h] is what the model emits (documents and spans). *)
-From BV Require Import Base.Prelude Engine.Spans Proofs.Spans.
+From BV Require Import Base.Prelude Base.KeyMap Engine.Spans Proofs.Spans.
 From Coq Require Import NArith.
 
 (* the RunStart / RunStop documents of the model are exactly the runs of the specification side *)
